@@ -399,6 +399,20 @@ func genVariedWork(g *core.Gen) {
 		size := 5 + r.Intn(g.N(22, 60))
 		tree := pacedTree(r, randTree(r, size, int(r.Pick(1, 1, 0)), int(r.Pick(0, 0, 80, 200))))
 		ops := randomOrder(r, tree, int(r.Pick(0, 100)), int(r.Pick(0, 0, 200)), int(r.Pick(40, 80, 95, 100)))
+		if i%2 == 1 {
+			// the header view must also follow WORK, not height: all headers first, branch by branch
+			// in a random order of the blocks within each depth
+			var hops []op
+			for _, id := range topo(tree) {
+				hops = append(hops, op{"hk"[r.Intn(2)], id})
+			}
+			for k := 0; k+1 < len(hops); k++ { // local disorder that keeps parents first most of the time
+				if r.Chance(1, 5) {
+					hops[k], hops[k+1] = hops[k+1], hops[k]
+				}
+			}
+			ops = append(hops, ops...)
+		}
 		g.Case("varied-work", nontrivial(tree, ops), mkLine(tree, ops))
 	}
 	// every delivery order of a few small paced trees (two branches of 2-3 blocks)
